@@ -26,7 +26,7 @@ ASSUMPTIONS = ["triples: coefficient None and 1 are the same coefficient when a 
 SHARDS = {"quick": 8, "thorough": 16}
 DEADLINE = {"quick": 50, "thorough": 420}
 REQUIRED = {"like:sums": 200, "like:arrangements": 2000, "alike:pairs": 3000, "alike:term-result-pairs": 3000, "alike:reflexive": 500, "termex:texts": 300, "maketerm:triples": 200,
-            "factor:n": 2000, "noraise:has_like_terms": 500, "noraise:get_sub_terms": 500, "noraise:is_preferred_term_form": 500,
+            "factor:n": 2000, "factor:asked-again-after-editing-the-result": 500, "noraise:has_like_terms": 500, "noraise:get_sub_terms": 500, "noraise:is_preferred_term_form": 500,
             "like:answer:True": 50, "like:answer:False": 50, "alike:answer:True": 100}
 
 COEFS = ["", "2", "3", "12", "0.5", "2.5", "-1", "-3", "0", "1", "-0.25", "7", "100"]
@@ -322,6 +322,21 @@ def check_factor(rec, n):
         rec.violation("C16", f"factor/raises/{type(ex).__name__}", "factor raised on a positive integer", {"n": n, "summary": f"factor({n}) raised {type(ex).__name__}"})
         return
     want = divisor_pairs(n)
+    if n % 3 == 0:
+        # the table belongs to the caller: whatever is done to it must not show in a later answer
+        try:
+            snapshot = dict(got)
+            got.clear()
+            got["scribble"] = 0
+            again = U.factor(n)
+            rec.arm("factor:asked-again-after-editing-the-result")
+            if dict(again) != snapshot:
+                rec.violation("C16", "factor/table", "factor(n) does not list exactly the divisor pairs of n",
+                              {"n": n, "edited_first_result": True, "summary": f"factor({n}) asked again after the caller edited the first table it was handed: {dict(list(again.items())[:6])} instead of {dict(list(snapshot.items())[:6])}"})
+                return
+            got = again
+        except Exception:
+            pass
     try:
         g = {Fraction(k): Fraction(v) for k, v in got.items()}
     except Exception:
@@ -412,6 +427,8 @@ def replay(rec, cfg, w):
     rng = cfg.rng("replay")
     if "n" in w:
         check_factor(rec, w["n"])
+        if w.get("edited_first_result") and w["n"] % 3:
+            check_factor(rec, w["n"] * 3)
     elif "terms" in w:
         import mathy_core.util as U
 
